@@ -235,3 +235,166 @@ theorem pseudoVoid_trace (f : PseudoFut) (h : List FOp) :
     exact ⟨by simp [(ih _).1], (ih _).2⟩
 
 end DV.C19
+
+/-! ## round two: successful gets are counted, projections preserve the judgements, type erasure -/
+namespace DV.C19
+
+/-- number of `get` calls that returned (were not answered by InvalidFutureException) -/
+def succGets : List FOp → List FObs → Nat
+  | o :: os, b :: bs => (if o = .get ∧ b ≠ .errInvalid then 1 else 0) + succGets os bs
+  | _, _ => 0
+
+theorem eraseObs_eq_err (b : FObs) : eraseObs b = .errInvalid ↔ b = .errInvalid := by
+  cases b <;> simp [eraseObs]
+
+theorem eraseObs_eq_true (b : FObs) : eraseObs b = .bool true ↔ b = .bool true := by
+  cases b <;> simp [eraseObs]
+
+theorem succGets_map_erase (h : List FOp) (bs : List FObs) : succGets h (bs.map eraseObs) = succGets h bs := by
+  induction h generalizing bs with
+  | nil => cases bs <;> rfl
+  | cons o os ih =>
+    cases bs with
+    | nil => rfl
+    | cons b bs => simp [succGets, ih, eraseObs_eq_err]
+
+theorem misuse_map_erase (h : List FOp) (bs : List FObs) (hm : MisuseReported h bs) :
+    MisuseReported h (bs.map eraseObs) := by
+  induction h generalizing bs with
+  | nil => cases bs <;> trivial
+  | cons o os ih =>
+    cases bs with
+    | nil => trivial
+    | cons b bs =>
+      obtain ⟨h1, h2⟩ := hm
+      exact ⟨fun ho => (eraseObs_eq_err b).mpr (h1 ho), ih bs h2⟩
+
+theorem alwaysReady_map_erase (h : List FOp) (bs : List FObs) (hm : AlwaysReady h bs) :
+    AlwaysReady h (bs.map eraseObs) := by
+  induction h generalizing bs with
+  | nil => cases bs <;> trivial
+  | cons o os ih =>
+    cases bs with
+    | nil => trivial
+    | cons b bs =>
+      obtain ⟨h1, h2⟩ := hm
+      exact ⟨fun ho => (eraseObs_eq_true b).mpr (h1 ho), ih bs h2⟩
+
+namespace MpiFut
+
+theorem invalid_succGets (f : MpiFut) (h : List FOp) (hv : f.valid = false) : succGets h (trace step f h) = 0 := by
+  induction h generalizing f with
+  | nil => rfl
+  | cons o os ih =>
+    rw [trace_cons]
+    have hs := step_invalid f o hv
+    simp only [succGets, ih _ hs.1]
+    by_cases ho : o = .get
+    · have he := hs.2.2 (Or.inl ho)
+      subst ho
+      simp [he]
+    · simp [ho]
+
+theorem valid_succGets (f : MpiFut) (h : List FOp) (hv : f.valid = true) :
+    succGets h (trace step f h) = if h.contains .get then 1 else 0 := by
+  induction h generalizing f with
+  | nil => rfl
+  | cons o os ih =>
+    rw [trace_cons]
+    by_cases ho : o = .get
+    · subst ho
+      simp [succGets, (get_valid f hv).1, invalid_succGets _ _ (get_valid f hv).2]
+    · have hv' : (step f o).2.valid = true := by rw [step_valid]; simp [hv, ho]
+      have hne : ¬ (FOp.get = o) := fun h => ho h.symm
+      simp [succGets, ih _ hv', ho, hne]
+
+theorem ready_true_notPending (f : MpiFut) (h : (step f .ready).1 = .bool true) :
+    (step f .ready).2.req ≠ .pending := by
+  cases hr : f.req <;> simp_all [step, ready, mpiTest]
+
+end MpiFut
+
+namespace PseudoFut
+
+theorem invalid_succGets (f : PseudoFut) (h : List FOp) (hv : f.valid = false) :
+    succGets h (trace step f h) = 0 := by
+  induction h generalizing f with
+  | nil => rfl
+  | cons o os ih =>
+    rw [trace_cons]
+    have hs := step_invalid f o hv
+    simp only [succGets, ih _ hs.1]
+    by_cases ho : o = .get
+    · have he := hs.2.2 (Or.inl ho)
+      subst ho
+      simp [he]
+    · simp [ho]
+
+theorem valid_succGets (f : PseudoFut) (h : List FOp) (hv : f.valid = true) :
+    succGets h (trace step f h) = if h.contains .get then 1 else 0 := by
+  induction h generalizing f with
+  | nil => rfl
+  | cons o os ih =>
+    rw [trace_cons]
+    by_cases ho : o = .get
+    · subst ho
+      have h1 : (step f .get).1 = .data f.data := by simp [step, get, hv]
+      have h2 : (step f .get).2.valid = false := by simp [step, get, hv]
+      simp [succGets, h1, invalid_succGets _ _ h2]
+    · have hv' : (step f o).2.valid = true := by rw [step_valid]; simp [hv, ho]
+      have hne : ¬ (FOp.get = o) := fun h => ho h.symm
+      simp [succGets, ih _ hv', ho, hne]
+
+end PseudoFut
+
+/-- every state of MPIFuture<void> is the projection of a state of MPIFuture<T> -/
+def liftMpi (f : MpiVoid) : MpiFut := { valid := f.valid, req := f.req, buf := [], incoming := [] }
+theorem erase_liftMpi (f : MpiVoid) : eraseMpi (liftMpi f) = f := rfl
+
+def liftPseudo (f : PseudoVoid) : PseudoFut := { valid := f.valid, data := [] }
+theorem erase_liftPseudo (f : PseudoVoid) : erasePseudo (liftPseudo f) = f := rfl
+
+/-! ### `Dune::Future<T>` -/
+
+theorem erased_some {σ : Type} (inner : σ → FOp → FObs × σ) (f : σ) (h : List FOp) :
+    trace (erasedStep inner) (some f) h = trace inner f h ∧
+      final (erasedStep inner) (some f) h = some (final inner f h) := by
+  induction h generalizing f with
+  | nil => exact ⟨rfl, rfl⟩
+  | cons o os ih =>
+    rw [trace_cons, trace_cons, final_cons, final_cons]
+    exact ⟨by simp [erasedStep, (ih _).1], by simp [erasedStep, (ih _).2]⟩
+
+theorem erased_null_step {σ : Type} (inner : σ → FOp → FObs × σ) (o : FOp) :
+    (erasedStep inner none o).2 = none ∧ dataOf [(erasedStep inner none o).1] = [] ∧
+      ((o = .get ∨ o = .wait) → (erasedStep inner none o).1 = .errInvalid) ∧
+      (o = .valid → (erasedStep inner none o).1 = .bool false) := by
+  cases o <;> simp [erasedStep, dataOf]
+
+theorem erased_null {σ : Type} (inner : σ → FOp → FObs × σ) (h : List FOp) :
+    MisuseReported h (trace (erasedStep inner) none h) ∧ dataOf (trace (erasedStep inner) none h) = [] ∧
+      succGets h (trace (erasedStep inner) none h) = 0 ∧ final (erasedStep inner) none h = none := by
+  induction h with
+  | nil => exact ⟨trivial, rfl, rfl, rfl⟩
+  | cons o os ih =>
+    have hs := erased_null_step inner o
+    rw [trace_cons, final_cons, hs.1]
+    refine ⟨⟨hs.2.2.1, ih.1⟩, ?_, ?_, ih.2.2.2⟩
+    · rw [MpiFut.dataOf_cons, hs.2.1, ih.2.1]; rfl
+    · simp only [succGets, ih.2.2.1]
+      by_cases ho : o = .get
+      · have he := hs.2.2.1 (Or.inl ho)
+        subst ho
+        simp [he]
+      · simp [ho]
+
+theorem voidCast_trace {σ : Type} (inner : σ → FOp → FObs × σ) (f : σ) (h : List FOp) :
+    trace (voidCastStep inner) f h = (trace inner f h).map eraseObs ∧
+      final (voidCastStep inner) f h = final inner f h := by
+  induction h generalizing f with
+  | nil => exact ⟨rfl, rfl⟩
+  | cons o os ih =>
+    rw [trace_cons, trace_cons, final_cons, final_cons]
+    exact ⟨by simp [voidCastStep, (ih _).1], by simp [voidCastStep, (ih _).2]⟩
+
+end DV.C19
